@@ -193,6 +193,16 @@ impl World {
                 if crate::fdlimit::restore() { Ok(()) } else { Err(std::io::Error::other("setrlimit")) }
             },
         })();
+        // `nuke` ignores errors: an unprivileged mutator cannot remove what lies in a directory it
+        // may not write to (one whose permissions an earlier mutation revoked, say). A mutation that
+        // was not carried out must say so, or the model of the run would describe another world.
+        let res = match (&m.op, res) {
+            // (gone means NotFound; anything else — still there, or not even visible — is a failure)
+            (MutOp::Remove, Ok(())) if !matches!(fs::symlink_metadata(&p), Err(ref e) if e.kind() == std::io::ErrorKind::NotFound) => {
+                Err(std::io::Error::from(std::io::ErrorKind::PermissionDenied))
+            },
+            (_, r) => r,
+        };
         match res {
             Ok(()) => "ok".to_string(),
             Err(e) => format!("{:?}", e.kind()),
